@@ -285,6 +285,25 @@ def recheck(t, when):
     """An emitted event is a value the caller holds: it must still say the same thing later."""
     for i, e in enumerate(t.events):
         if e.kind != "M":
+            # a delivered warning is held by the caller, too: what it says (text, paths, excess, value) must not move on
+            # with the decoder's bookkeeping (the live counters of its region are not part of what it *says*)
+            try:
+                late = snap_error(e.raw.error, materialize=False)
+            except Exception as ex:
+                late = {"cls": f"<unreadable: {type(ex).__name__}>"}
+            keys = ("cls", "str", "cpath", "vpath", "vvalue", "by", "value", "tname")
+            then = {k: e.err.get(k) for k in keys}
+            now_ = {k: late.get(k) for k in keys}
+            if getattr(t, "rooted", False):
+                for k in ("cpath", "vpath"):
+                    if now_.get(k) is not None:
+                        now_[k] = _unroot(now_[k], [])
+            if then != now_:
+                if len(MUTATIONS) < 20:
+                    diff = {k: (then[k], now_[k]) for k in keys if then[k] != now_[k]}
+                    MUTATIONS.append(dict(when=when, index=i, emitted=("warning", e.err.get("cls"), str(diff)[:300]), now=("warning", late.get("cls"), ""),
+                                          data=t.data.hex()[:400], tname=getattr(t, "tname", None), args=getattr(t, "args", None)))
+                return False
             continue
         raw = e.raw
         try:
